@@ -8,7 +8,11 @@
     mapping returned by the subsetter is the argument of both the CIDToGIDMap generator and the
     width-array generator, and the character set given to the subsetter is the per-font set recorded
     by R1.
-Not decided: width values, ToUnicode correctness, extraction equality.
+ R3 the ToUnicode lookup used when the text is read back is length-gated (rule C26 R6): a code is
+    compared with a bfrange only when both have the same number of bytes, so a one-byte prefix of a
+    two-byte code cannot match a two-byte range (which would garble every character whose high
+    byte lies inside a range that crosses a 256 boundary).
+Not decided: width values, the ToUnicode values themselves, extraction equality.
 """
 from .. import lib as L
 from .. import flow as FL
@@ -52,6 +56,8 @@ def records(facts, fid, depth=2, seen=None):
 
 def run(ctx):
     facts = ctx.facts
+    from . import C26
+    C26.check_range_length_gate(ctx, "R3")
     n = 0
     for fid, fn in sorted(facts.fns.items()):
         if fn.kind == "Closure" or not fn.params:
